@@ -532,8 +532,12 @@ def main(tier, seed, replay=None):
     cfg = 'MC_Retry_%s.cfg' % tier
     r = tlc.check('MC_Retry.tla', cfg, timeout=3000)
     out.add_tlc(cfg, r)
-    r2 = tlc.check('MC_Retry.tla', 'MC_Retry_reliable.cfg', timeout=1200)
-    out.add_tlc('MC_Retry_reliable.cfg', r2)
+    rel_cfg = 'MC_Retry_reliable_quick.cfg' if tier == 'quick' else 'MC_Retry_reliable.cfg'
+    r2 = tlc.check('MC_Retry.tla', rel_cfg, timeout=1200)
+    out.add_tlc(rel_cfg, r2)
+    if tier != 'quick':
+        r3 = tlc.check('MC_Retry.tla', 'MC_Retry_mid.cfg', timeout=3000)
+        out.add_tlc('MC_Retry_mid.cfg', r3)
     for b in ('resendAfterAnswer', 'defaultTimeout', 'noIdentity', 'stalePatterns', 'rereadLink', 'rereadPatterns'):
         rb = tlc.expect_violation('MC_Retry.tla', 'MC_Retry_bug_%s.cfg' % b, timeout=1200)
         out.sensitivity['spec:' + b] = 'refuted (%s) after %d states' % (rb.violated, rb.distinct)
